@@ -151,6 +151,26 @@ def select(prop, tier, seed, allh):
                 continue
             out.append(h)
     sel = spec.get("select")
+    pool = list(out)
     if sel:
         out = sel(out, tier, seed)
+    if tier == "quick":
+        # change-focused additions (see lib/focus.py): queries over files that differ from the baseline,
+        # including thorough-tier ones (they run under the quick per-query cap)
+        import focus
+        files = focus.changed_files()
+        want = focus.focus(allh, files)
+        names = set(h["name"] for h in out)
+        extra = []
+        for h in allh:
+            home = h["fn"][:3]
+            mine = home in spec["prefixes"] or (prop == "C20" and "c20" in h["ann"]) or (prop.lower() in h["ann"] and prop in ("C01", "C02"))
+            if mine and h["name"] in want and h["name"] not in names:
+                h = dict(h)
+                h["focus"] = True
+                extra.append(h)
+        for h in out:
+            if h["name"] in want:
+                h["focus"] = True
+        out = extra + out
     return out
